@@ -1,5 +1,6 @@
 """Bespoke structural rules: R-IT, R-NON, R-CONV, R-MSK, R-DAR, R-LVL, R-DEL, R-SPC."""
 from .core import *
+from .core import _operand_locals
 from .report import Inst
 
 SELF = ('param', 'self')
@@ -33,7 +34,9 @@ def rule_IT(FA):
         tr = f['impl_trait']
         if tr in ('std::iter::Iterator', 'std::iter::DoubleEndedIterator', 'std::iter::ExactSizeIterator') and f['name'] in ('next', 'next_back', 'len'):
             by_base[f['_base']][f['name']] = f
+    base_props = lambda b: ['C12'] + (['C13'] if b.startswith('qvector') else ['C08'] if b.startswith('bitvector') else [])
     for base, ms in sorted(by_base.items()):
+        props = base_props(base)
         nxt = ms.get('next')
         ln = ms.get('len')
         if nxt is None:
@@ -47,9 +50,13 @@ def rule_IT(FA):
                             ('cursor `%s` advances unconditionally (no len(): not observable)' % unguarded[0][1]) if unguarded else 'cursor writes are guarded or delegated',
                             props, nontrivial=bool(ws)))
             continue
-        L = FA.fn(ln)
+        L = FA.fn(FA.inlined(ln))
         lret = norm(L.local_term(0))
         key = 'R-IT|%s' % base
+        # `(self.i..self.end).len()` is end - i
+        if lret[:1] == ('call',) and lret[1].split('::')[-1] == 'len' and lret[2] and isinstance(lret[2][0], tuple) \
+                and lret[2][0][:1] == ('agg',) and 'std::ops::Range:' in lret[2][0][1] and len(lret[2][0][2]) == 2:
+            lret = ('bin', 'Sub', lret[2][0][2][1], lret[2][0][2][0])
         if not (lret[0] == 'bin' and lret[1] == 'Sub'):
             out.append(Inst('R-IT', key + '|len', 'violation', ln['span'], 'len() is `%s`, not the difference of the bound and the cursor' % show(lret), props))
             continue
@@ -63,13 +70,23 @@ def rule_IT(FA):
             ws = _field_writes(F)
             rel = [w for w in ws if ('field', SELF, w[1]) in (bound, cur)]
             if not rel:
-                out.append(Inst('R-IT', '%s|%s' % (key, name), 'violation', m['span'], '%s() moves neither `%s` nor `%s`' % (name, show(cur), show(bound)), props))
-                ok = False
+                # the cursor may be moved by code the rule cannot follow (Option combinators with closures, a Range field): no
+                # verdict rather than an alarm
+                out.append(Inst('R-IT', '%s|%s' % (key, name), 'note', m['span'], '%s() does not write `%s` / `%s` by a plain assignment: cursor discipline not decided' % (name, show(cur), show(bound)), props, nontrivial=False))
+                ok = None if ok else ok
                 continue
             for bi, fld, val, line, ty in rel:
                 atoms = path_atoms(F, bi)
                 fterm = ('field', SELF, fld)
                 if guard not in atoms and not _guarded_by_get(FA, atoms, cur, bound):
+                    opaque = [a for a in atoms if a[0] in ('is', 'true') and isinstance(a[1], tuple)
+                              and any(isinstance(x, tuple) and x[:1] == ('call',) for x in subterms(a[1]))]
+                    if opaque:
+                        # the write happens only after a call answered Some / true (`let pos = (self.i..self.end).next()?`):
+                        # a guard the rule cannot interpret
+                        out.append(Inst('R-IT', '%s|%s|%s' % (key, name, fld), 'note', line, 'cursor write guarded by `%s`: not decided' % fmt_atom(opaque[0])[:100], props, nontrivial=False))
+                        ok = None if ok else ok
+                        continue
                     out.append(Inst('R-IT', '%s|%s|%s unguarded' % (key, name, fld), 'violation', line,
                                     '%s() writes cursor `%s` without the dominating test `%s`: after exhaustion len() = %s underflows / elements repeat' % (
                                         name, fld, fmt_atom(guard), show(lret)), props,
@@ -81,12 +98,34 @@ def rule_IT(FA):
                     out.append(Inst('R-IT', '%s|%s|%s step' % (key, name, fld), 'violation', line,
                                     '%s() sets `%s` to `%s`, expected `%s`' % (name, fld, show(val), show(norm(want))), props))
                     ok = False
-        if ok:
+        if ok is True:
             out.append(Inst('R-IT', key, 'ok', nxt['span'], 'cursor writes guarded by `%s`, unit steps, len() = %s' % (fmt_atom(guard), show(lret)), props,
                             sample={'guard': fmt_atom(guard), 'len': show(lret)}))
+    # overridden skipping methods: `nth(n)` advances RELATIVE to the cursor
+    for f in FA.lib_fns(include_closures=False):
+        if f['impl_trait'] in ('std::iter::Iterator', 'std::iter::DoubleEndedIterator') and f['name'] in ('nth', 'nth_back', 'advance_by', 'advance_back_by'):
+            F = FA.fn(f)
+            base = f['_base']
+            props = base_props(base)
+            bad = None
+            n_w = 0
+            for bi, fld, val, line, ty in _field_writes(F):
+                if ty != 'usize':
+                    continue
+                n_w += 1
+                if not contains(val, ('field', SELF, fld)):
+                    bad = (line, fld, show(val)[:60])
+            key = 'R-IT|%s|%s' % (base, f['name'])
+            if bad:
+                out.append(Inst('R-IT', key, 'violation', bad[0],
+                                '%s() sets the cursor `%s` to `%s`, which does not depend on its previous value: skipping is relative to the current position (wrong elements after a partial consumption, `step_by` never ends)' % (
+                                    f['name'], bad[1], bad[2]), props))
+            elif n_w:
+                out.append(Inst('R-IT', key, 'ok', f['span'], 'cursor moved relative to its previous value', props))
     # read-ahead: after `self.i += 1` an access that still depends on the advanced cursor (`data[self.i >> 6]`) was not
     # covered by the test `i < bound` made before the step
     for base, ms in sorted(by_base.items()):
+        props = base_props(base)
         for name in ('next', 'next_back'):
             m = ms.get(name)
             if m is None:
@@ -188,7 +227,7 @@ def _mentions_old_content(t):
 
 def rule_NON(FA):
     out = []
-    props = ['C08', 'C19', 'C10', 'C06']
+    props = ['C08', 'C19', 'C10', 'C06', 'C04']
     base = 'bitvector::BitVectorMut'
     n = 0
     for f in FA.lib_fns(include_closures=False):
@@ -282,6 +321,27 @@ def rule_NON(FA):
                                     sample={'count': show(cnt)}))
         if not found:
             out.append(Inst('R-NON', key, 'violation', ez['span'], 'no resize of the line vector found (anchor lost)', props))
+    # any other place that sizes a line vector from a bit count: floor(n / LINE_BITS) + 1 is one line too many when n is a multiple
+    if line_bits:
+        k9 = line_bits.bit_length() - 1
+        for g in FA.lib_fns(include_derived=True):   # hand-written serde impls carry serde's `_::_serde` path segment
+            if g['derived'] or not fn_key(FA.closure_parent(g)).startswith('bitvector'):
+                continue
+            G = FA.fn(g)
+            for bi, t in G.calls():
+                fn = t['f']['fn']
+                if fn['name'] in ('resize', 'resize_with', 'from_elem', 'with_capacity', 'repeat_n', 'take') and len(t['args']) >= 1:
+                    if not any('DataLine' in x for x in fn.get('gargs', [])) and 'DataLine' not in (G.locals[t['dest']['l']] if not t['dest']['proj'] else ''):
+                        continue
+                    for a in t['args']:
+                        cnt = strip_casts(norm(G.operand_term(a)))
+                        if cnt[:2] == ('bin', 'Add') and ('const', 1) in (cnt[2], cnt[3]):
+                            other = cnt[3] if cnt[2] == ('const', 1) else cnt[2]
+                            other = strip_casts(other)
+                            if other[:2] == ('bin', 'Shr') and other[3] == ('const', k9) and fn_key(FA.closure_parent(g)) != fn_key(ez or {'path': '', 'kind': '', 'name': ''}):
+                                out.append(Inst('R-NON', 'R-NON|%s|line count' % fn_key(FA.closure_parent(g)), 'violation', t.get('line', ''),
+                                                '`%s` sizes the line vector with `%s`: floor(n / %d) + 1 is one line too many when n is a multiple of %d (a value that no longer equals one built by push)' % (
+                                                    fn['name'], show(cnt)[:60], line_bits, line_bits), props + ['C11']))
     # R-CONV
     for a, b in (('bitvector::BitVector', 'bitvector::BitVectorMut'), ('bitvector::BitVectorMut', 'bitvector::BitVector')):
         cands = [f for f in FA.by_base_name.get((a, 'from'), []) if f['impl_trait'] == 'std::convert::From' and base_type(f['locals'][1]) == b]
@@ -338,6 +398,11 @@ def bit_width(t, F=None):
         return min(w, bit_width(t[2]))
     if k == 'cexpr':
         return 128
+    # a value drawn from an array literal by an iterator (`for (plane, bit) in [hi, lo].into_iter().enumerate()`): the widest
+    # element of the literal
+    arrs = [x for x in subterms(t) if isinstance(x, tuple) and x[:1] == ('agg',) and x[1] == 'array' and x[2]]
+    if arrs and k in ('call', 'field', 'variant', 'unknown'):
+        return max(bit_width(o) for o in arrs[0][2])
     return 128
 
 
@@ -360,8 +425,8 @@ def rule_MSK(FA):
                 # the operand that is not the stored word
                 cand = val if contains(cur, SELF) else cur
                 ors.append((cand, s['line']))
-    if len(ors) < 2:
-        out.append(Inst('R-MSK', 'R-MSK|qvector::DataLine::set_symbol', 'violation', f['span'], 'expected two OR-writes (high and low plane), found %d' % len(ors), props))
+    if len(ors) < 1:
+        out.append(Inst('R-MSK', 'R-MSK|qvector::DataLine::set_symbol', 'note', f['span'], 'no OR-write into the bit planes recognised: masking not decided', props, nontrivial=False))
     planes = []
     for val, line in ors:
         v = val
@@ -441,9 +506,30 @@ def rule_MSK(FA):
                     touching.append(short_callee(t['f']['fn']))
         if direct or touching:
             good = False
-        out.append(Inst('R-MSK', 'R-MSK|QVectorBuilder::extend', 'ok' if good else 'violation', ext[0]['span'],
-                        'extend pushes as_::<u8>() of every yielded element and nothing else' if good else
-                        'extend is not "push(as_()) of each yielded element": %s' % (', '.join(['writes self.%s' % w[1] for w in direct] + touching) or 'no such push found'), props))
+        # positive contradiction: the counter is in bits (two per symbol); a slot computed from it without halving addresses
+        # the wrong place (`self.position & 255`)
+        raw = None
+        Ei = FA.fn(FA.inlined(ext[0]))
+        Ei.dom()
+        for bi, b in enumerate(Ei.blocks):
+            if bi not in Ei.reach:
+                continue
+            for s_ in b['s']:
+                rv = s_['rv']
+                if rv['k'] == 'bin' and rv['op'] in ('BitAnd', 'Rem'):
+                    a, c = norm(Ei.operand_term(rv['a'])), norm(Ei.operand_term(rv['b']))
+                    if a[:1] == ('const',):
+                        a, c = c, a
+                    if strip_casts(a) == ('field', SELF, ctr if push is not None and ln is not None else 'position') and c[:1] == ('const',) and isinstance(c[1], int) and c[1] >= 63:
+                        raw = s_.get('line', '')
+        if raw:
+            out.append(Inst('R-MSK', 'R-MSK|QVectorBuilder::extend', 'violation', raw,
+                            'extend derives a slot from the bit counter without halving it (`position & mask`): push and len() use position >> 1', props))
+        elif good:
+            out.append(Inst('R-MSK', 'R-MSK|QVectorBuilder::extend', 'ok', ext[0]['span'], 'extend pushes as_::<u8>() of every yielded element and nothing else', props))
+        else:
+            out.append(Inst('R-MSK', 'R-MSK|QVectorBuilder::extend', 'note', ext[0]['span'],
+                            'extend is not the plain "push(as_()) of each yielded element" (%s): equivalence with push not decided' % (', '.join(['writes self.%s' % w[1] for w in direct] + touching)[:120] or 'no such push found'), props, nontrivial=False))
     return out
 
 
@@ -513,6 +599,7 @@ def _origin_id(F, l, depth=0):
 
 def _dar_containers(FA, F):
     """{field name of Inventories: identity of the local container its value is built in} in an (inlined) constructor."""
+    owner = FA.canon_type(INV_OWNER) or INV_OWNER
     adt = FA.adts.get(INV_OWNER) or {}
     names = [x['name'] for x in adt.get('fields', [])]
     out = {}
@@ -521,7 +608,7 @@ def _dar_containers(FA, F):
             continue
         for st in b['s']:
             rv = st['rv']
-            if rv['k'] == 'agg' and rv['kind'].get('adt') == INV_OWNER:
+            if rv['k'] == 'agg' and rv['kind'].get('adt') == owner:
                 for i, o in enumerate(rv['ops']):
                     if i < len(names) and 'p' in o:
                         fld = next((e['f'] for e in o['p']['proj'] if isinstance(e, dict) and 'f' in e), None)
@@ -617,6 +704,7 @@ def rule_DAR(FA):
     enc = []
     ov_terms = []
     trig = False
+    other_trig = []
     blk_sites = []   # (block, comparison atoms) of every push to block_inventory
     sub_sites = []   # (block, comparison atoms) of every append to subblock_inventory
     APP = ('push', 'extend', 'resize', 'extend_from_slice', 'append', 'insert', 'resize_with')
@@ -640,6 +728,8 @@ def rule_DAR(FA):
             for a in atoms:
                 if a[0] == '==' and ((a[1] == ('const', B)) or (a[2] == ('const', B))):
                     trig = True
+                elif a[0] == '==' and any(x[:1] == ('const',) and isinstance(x[1], int) and x[1] >= 64 for x in (a[1], a[2]) if isinstance(x, tuple)):
+                    other_trig.append([x[1] for x in (a[1], a[2]) if isinstance(x, tuple) and x[:1] == ('const',)][0])
         if rid not in sub_ids:
             continue
         n_app += 1
@@ -738,8 +828,21 @@ def rule_DAR(FA):
                               'in-block offset is truncated to u16 without a dominating `span < 65536` (%s)' % ('; '.join(seen) or 'no bound'), props))
     if n_cast == 0:
         out.append(Inst('R-DAR', 'R-DAR|u16 store bounded', 'violation', nws[0]['span'], 'narrowing store not found (anchor lost)', props))
-    out.append(Inst('R-DAR', 'R-DAR|flush trigger', 'ok' if trig else 'violation', nws[0]['span'],
-                    'a group is flushed when it holds exactly %d positions' % B if trig else 'no block_inventory entry is written under `len == %d` (reader block size)' % B, props))
+    # groups of exactly B positions: `len == B` before the flush, or the positions are taken B at a time
+    for bi, t in W.calls():
+        if t['f']['fn']['name'] in ('take', 'chunks', 'chunks_exact', 'array_chunks') and len(t['args']) == 2:
+            k = strip_casts(norm(W.operand_term(t['args'][1])))
+            if k == ('const', B):
+                trig = True
+            elif k[:1] == ('const',) and isinstance(k[1], int) and k[1] >= 64 and t['f']['fn']['name'] != 'take':
+                other_trig.append(k[1])
+    if trig:
+        out.append(Inst('R-DAR', 'R-DAR|flush trigger', 'ok', nws[0]['span'], 'a group is flushed when it holds exactly %d positions' % B, props))
+    elif other_trig:
+        out.append(Inst('R-DAR', 'R-DAR|flush trigger', 'violation', nws[0]['span'],
+                        'groups are closed at %d positions but the reader finds the group of the i-th position at i / %d' % (other_trig[0], B), props))
+    else:
+        out.append(Inst('R-DAR', 'R-DAR|flush trigger', 'note', nws[0]['span'], 'the condition under which a group is closed was not recognised: group size not decided', props, nontrivial=False))
     return out
 
 
@@ -819,6 +922,33 @@ def rule_LVL(FA):
                     atoms = path_atoms(F, bi)
                     ok = any(a[0] in ('<=', '<') and isinstance(a[2], tuple) and a[2][:1] == ('field',) and a[2][2] == 'len' and a[1][0] != 'const' for a in atoms)
                     key = 'R-LVL|%s::new%s|level write guarded' % (base, spec_key({k: v for k, v in spec.items() if k == 'COMPRESSED'}))
+                    if not ok:
+                        # the written values may come out of a closure-driven iterator (`seq.iter().filter_map(|s| bit_of(s))`):
+                        # the guard then lives in a closure; found there -> ok, otherwise the rule cannot decide
+                        pushed = norm(F.operand_term(t['args'][1])) if len(t['args']) > 1 else ('?',)
+                        driven = []
+                        for a in atoms:
+                            if a[0] != 'is' or not isinstance(a[1], tuple):
+                                continue
+                            nx = [x for x in subterms(a[1]) if isinstance(x, tuple) and x[:1] == ('call',) and x[1].split('::')[-1] == 'next'
+                                  and any(isinstance(y, tuple) and y[:1] == ('agg',) and isinstance(y[1], str) and y[1].startswith('closure:') for y in subterms(x))]
+                            # ... and the pushed value is what that iterator yields
+                            if nx and any(contains(pushed, n_) for n_ in nx):
+                                driven.append(a)
+                        if driven:
+                            in_closure = False
+                            for cg in FA.with_closures(fi)[1:]:
+                                CG = FA.fn(cg, {k: v for k, v in spec.items() if k in FA.const_params(cg)})
+                                CG.dom()
+                                for cb in CG.reach:
+                                    if any(a[0] in ('<=', '<') and isinstance(a[2], tuple) and a[2][:1] == ('field',) and a[2][2] == 'len' and a[1][0] != 'const'
+                                           for a in site_condition(FA, CG, cb)):
+                                        in_closure = True
+                            if in_closure:
+                                out.append(Inst('R-LVL', key, 'ok', t['line'], 'level bits come from a closure that yields a bit only under `shift <= code.len`', props))
+                            else:
+                                out.append(Inst('R-LVL', key, 'note', t['line'], 'level bits are produced by a closure-driven iterator the rule cannot follow: not decided', props, nontrivial=False))
+                            continue
                     if ok:
                         out.append(Inst('R-LVL', key, 'ok', t['line'], 'symbol is written to a level only under `shift <= code.len`', props))
                     else:
@@ -935,6 +1065,31 @@ ALLOWED_PLUMBING = ('into_iter', 'collect', 'index', 'index_mut', 'as_mut_slice'
                     'copied', 'cloned', 'iter', 'into', 'as_slice', 'as_ref', 'map', 'extend', 'default', 'new')
 
 
+_DEL_FACTS = [None]
+
+
+def _pure_conversion_closure(clo):
+    """`.map(|v| v.as_())`-style closure: its result is a width conversion of its argument and nothing else (no arithmetic
+    on the element, no fallible conversion that panics for some values)."""
+    FA = _DEL_FACTS[0]
+    if FA is None:
+        return True
+    r = closure_apply(FA, clo, [('param', '$elem')])
+    if r is None:
+        return True
+
+    def ok(x):
+        if x == ('param', '$elem'):
+            return True
+        if isinstance(x, tuple) and x:
+            if x[0] in ('as_', 'cast'):
+                return ok(x[2])
+            if x[0] == 'call' and x[1].split('::')[-1] in ('into', 'from', 'clone', 'as_', 'deref', 'borrow', 'to_owned') and len(x[2]) == 1:
+                return ok(x[2][0])
+        return False
+    return ok(r)
+
+
 def _pure_plumbing(t, params):
     """Term consisting only of parameters and collection plumbing (no filtering / truncation / mutation)."""
     if not isinstance(t, tuple) or not t:
@@ -949,8 +1104,10 @@ def _pure_plumbing(t, params):
             return False
         return all(_pure_plumbing(x, params) for x in t[2])
     if k == 'agg':
-        if 'RangeFull' in t[1] or t[1].startswith('closure:'):
+        if 'RangeFull' in t[1]:
             return True
+        if t[1].startswith('closure:'):
+            return _pure_conversion_closure(t)
         return all(_pure_plumbing(x, params) for x in t[2])
     if k in ('ref', 'deref', 'cast', 'variant'):
         return all(_pure_plumbing(x, params) for x in t[1:] if isinstance(x, tuple))
@@ -978,6 +1135,7 @@ DEL_PATHS = [
 
 def rule_DEL(FA):
     out = []
+    _DEL_FACTS[0] = FA
     for base, tr, name, callees, props in DEL_PATHS:
         cands = [f for f in FA.by_base_name.get((base, name), []) if f['impl_trait'].split('::')[-1] == tr and not f['derived']]
         if not cands:
@@ -1098,6 +1256,35 @@ def _spc_accounted(FA, f):
     return out
 
 
+def _spc_overwritten(FA, fi):
+    """line of an assignment to the returned accumulator that is dominated by an earlier assignment of it and does not
+    read its previous value (`space = p.space_usage_byte()` instead of `space += ..`)"""
+    F = FA.fn(fi)
+    dom = F.dom()
+    # the returned local, through plain moves
+    acc = 0
+    for _ in range(4):
+        ds = [d for d in F.defs.get(acc, []) if d[0] in F.reach]
+        if len(ds) == 1 and ds[0][1] == 'assign' and ds[0][2]['k'] == 'use' and 'p' in ds[0][2]['a'] and not ds[0][2]['a']['p']['proj']:
+            acc = ds[0][2]['a']['p']['l']
+        else:
+            break
+    ds = [d for d in F.defs.get(acc, []) if d[0] in F.reach]
+    if len(ds) < 2:
+        return None
+    for d in ds:
+        earlier = [e for e in ds if e is not d and (e[0] in dom[d[0]]) and (e[0] != d[0] or e[3] < d[3])]
+        if not earlier:
+            continue
+        ops = rv_operands(d[2]) if d[1] == 'assign' else list(d[2]['args'])
+        S = backward_slice(F, [o['p']['l'] for o in ops if 'p' in o], through_calls=False)
+        # `acc = move (tmp.0)` with tmp = Add(acc, x): the slice of the new value contains acc itself
+        if acc in S or any(acc in _operand_locals(o) for o in ops):
+            continue
+        return F.blocks[d[0]]['s'][d[3]].get('line', '') if d[1] == 'assign' else d[2].get('line', '')
+    return None
+
+
 def _spc_single_element(FA, fi, adt):
     """(field, accessor) when a Vec / boxed-slice field of heap-bearing components is measured through a single element
     (`first()`, `last()`, `[0]`, `get(0)`) whose size is then used for the whole field."""
@@ -1195,6 +1382,11 @@ def rule_SPC(FA):
         acc = _spc_accounted(FA, fi)
         missing = [h for h in heap if (h not in got or h not in acc) and '*self' not in got and (base, h) not in SPC_EXCEPTIONS]
         key = 'R-SPC|%s' % base
+        over = _spc_overwritten(FA, fi)
+        if over:
+            out.append(Inst('R-SPC', key, 'violation', over,
+                            'the running total of space_usage_byte() of %s is overwritten (`total = x`) after parts were already added to it: those parts drop out of the report on that path' % base.split('::')[-1], props))
+            continue
         single = _spc_single_element(FA, fi, adt)
         if single and not missing:
             out.append(Inst('R-SPC', key, 'violation', f['span'],
@@ -1434,7 +1626,7 @@ def rule_ALL(FA):
 
 # ---------------------------------------------------------------- R-SIG
 
-SIG_BASES = {'quadwt::QWaveletTree': ['C01'], 'quadwt::huffqwt::HuffQWaveletTree': ['C02'], 'binwt::WaveletTree': ['C03']}
+SIG_BASES = {'quadwt::QWaveletTree': ['C01', 'C14'], 'quadwt::huffqwt::HuffQWaveletTree': ['C02', 'C14'], 'binwt::WaveletTree': ['C03', 'C14']}
 
 
 def rule_SIG(FA):
@@ -1469,6 +1661,16 @@ def rule_SIG(FA):
                     tm = norm(F.operand_term(o))
                     if tm[:1] == ('call',) and tm[1].split('::')[-1] in ('default', 'zero', 'new'):
                         continue
+                    # the number of levels is computed from the bit length of that same sigma (not of sigma + 1, ...)
+                    if 'n_levels' in names and names.index('n_levels') < len(rv['ops']) and 'p' in rv['ops'][names.index('n_levels')]:
+                        SL = backward_slice(F, [rv['ops'][names.index('n_levels')]['p']['l']])
+                        for l2 in SL:
+                            for d2 in F.defs.get(l2, []):
+                                if d2[1] == 'call' and 'fn' in d2[2]['f'] and d2[2]['f']['fn']['name'] in ('msb', 'leading_zeros', 'ilog2', 'checked_ilog2') and d2[2]['args']:
+                                    a2 = strip_casts(norm(F.operand_term(d2[2]['args'][0])))
+                                    if a2 != strip_casts(tm) and contains(a2, strip_casts(tm)) and a2[:1] in (('call',), ('bin',)):
+                                        verdicts.append(('violation', d2[2].get('line', st['line']),
+                                                         'the number of levels is computed from the bit length of `%s`, not of the stored largest symbol `%s`: an extra (or missing) level for alphabets whose largest symbol is 2^k - 1' % (show(a2)[:60], show(tm)[:40])))
                     S = backward_slice(F, [o['p']['l']])
                     red = []
                     for l in S:
